@@ -17,14 +17,16 @@ pub fn safe_math_post_080_optimization(source_unit: SourceUnit) -> HashSet<Loc> 
 pub fn safe_math_optimization(source_unit: SourceUnit, pre_080: bool) -> HashSet<Loc> {
     let mut optimization_locations: HashSet<Loc> = HashSet::new();
 
-    let solidity_version = utils::get_solidity_version_from_source_unit(source_unit.clone())
-        .expect("Could not extract solidity version from source unit");
-
-    if (pre_080 && solidity_version.1 < 8) || (!pre_080 && solidity_version.1 >= 8) {
-        //if using safe math
-        if check_if_using_safe_math(source_unit.clone()) {
-            //get all locations that safe math functions are used
-            optimization_locations.extend(parse_contract_for_safe_math_functions(source_unit));
+    //If the file does not name a solidity version, there is nothing to report
+    if let Some(solidity_version) =
+        utils::get_solidity_version_from_source_unit(source_unit.clone())
+    {
+        if (pre_080 && solidity_version.1 < 8) || (!pre_080 && solidity_version.1 >= 8) {
+            //if using safe math
+            if check_if_using_safe_math(source_unit.clone()) {
+                //get all locations that safe math functions are used
+                optimization_locations.extend(parse_contract_for_safe_math_functions(source_unit));
+            }
         }
     }
 
